@@ -635,6 +635,21 @@ func init() {
 		i.call(fr, token.NoPos, a[0], nil)
 		return false
 	}
+	// sym.Atomic(f): f runs without scheduling points, ordered after every earlier atomic section (harness-side
+	// bookkeeping shared by threads; natively a mutex of the sym package)
+	ext[symPkg+"Atomic"] = func(fr *frame, a []value) value {
+		i := fr.i
+		if t := i.threads; t != nil {
+			t.inAtomic++
+			t.acquire(i, "sym.Atomic")
+			defer func() {
+				t.release(i, "sym.Atomic")
+				t.inAtomic--
+			}()
+		}
+		i.call(fr, token.NoPos, a[0], nil)
+		return nil
+	}
 	ext[symPkg+"ByteIn"] = func(fr *frame, a []value) value {
 		i := fr.i
 		set := i.cstr(a[1], "sym.ByteIn set")
